@@ -63,7 +63,7 @@ def generate(seed, tier):
     fc = r.choice(COUNTS)
     fp = r.choice(PERIODS)
     kind = r.choice(("snapshot", "snapshot", "log", "metric", "span"))
-    s = {"arm": arm, "fire_count": fc, "fire_period": fp, "kind": kind, "knobs": common.draw_knobs(r, stall_p=0.0)}
+    s = {"arm": arm, "fire_count": fc, "fire_period": fp, "kind": kind, "knobs": common.race_knobs(r, stall_p=0.0)}
     if arm == "seq":
         n = r.randrange(2, 15)
         gaps = []
